@@ -3,6 +3,8 @@ import NitroVerif.Lemmas.Build
 import NitroVerif.Lemmas.SkipInv
 import NitroVerif.Lemmas.TypeBuild
 import NitroVerif.Lemmas.ParseString
+import NitroVerif.Lemmas.ParseMoreBlock
+import NitroVerif.Lemmas.ParseMoreStrSpec
 import NitroVerif.Model.Build
 import NitroVerif.Spec.Lex
 /-!
@@ -16,8 +18,9 @@ reference string semantics `Spec/Lex.lean`. The model is tied to the code by the
 What is proved here: positions (the line/column the builders report is an exact, invertible function of the offset
 of the pair, and the text of a name/number node is the input slice at that position), the escape arms of string
 decoding, terminal matching, and kernel-checked witnesses of the defects of DESIGN §9 t–v on the model.
-`∀ A τ, parse (render A τ) = A` itself is proved in `Props/C07Doc.lean` for executable documents (without `#import` lines)
-and for type-system documents; what is NOT proved is listed in the OPEN block at the end and carried by K+O.
+`∀ A τ, parse (render A τ) = A` itself is proved in `Props/C07Doc.lean` for executable documents (with `#import` statements)
+and for type-system documents (`Props/C07Lead.lean`: with the optional leading separators); what is NOT proved is listed in
+the OPEN block at the end and carried by K+O.
 -/
 namespace NitroVerif.C07
 open NitroVerif.Peg NitroVerif.Build NitroVerif.Gen NitroVerif.Gen.Parts NitroVerif.Spec.Lex NitroVerif
@@ -250,6 +253,121 @@ theorem string_decode (s : List Char) :
 
 example : specEscape ['a', '"', '\n', Char.ofNat 0x1F600] = ['a', '\\', '"', '\\', 'n', Char.ofNat 0x1F600] := by decide
 
+/-! ### ANY legal string literal (third stage): every escape form, block strings -/
+
+open NitroVerif.StringParse in
+/-- `string_decode_general`: for EVERY normal string literal the grammar admits — `"`, then one or more items, each one of
+    the four alternatives of `StringCharacter` (`SItem`: a character other than `"` `\` LF CR; `\` + one of `" \ / b f n r t`;
+    `\uXXXX` with four hexadecimal digits; `\u{X…}` with one or more hexadecimal digits, any number of leading zeros), then
+    `"` — embedded anywhere in an input: the GENERATED grammar's `StringValue` rule (generic interpreter, any calling context,
+    depth bound linear in the text) consumes exactly the literal and yields one pair, on which
+    * `build_string_value` returns the items decoded one by one (`SItem.decode`: the character, the simple escape,
+      `char::from_u32(u32::from_str_radix(digits, 16))`) with the line/column of the opening quote, and fails exactly when
+      some `\u` escape denotes no Unicode scalar value (a surrogate, a value above U+10FFFF);
+    * `validate_unicode_escapes` (`firstBadEscape`) returns the offset of the FIRST such escape (`firstBadItem`) — that is
+      where the repaired parser reports its syntax error — and nothing when every escape denotes a character.
+    (The empty literal `""` is `string_decode_at` with `s = []`; block strings: `parse_render_block_string_raw`.) -/
+theorem string_decode_general (it : SItem) (its : List SItem) (hok : AllOk (it :: its)) (inp : List Char) (off : Nat)
+    (rest : List Char) (h : inp.drop off = '"' :: (litText (it :: its) ++ '"' :: rest)) (at_ : Atomicity) (fuel : Nat)
+    (hf : (litText (it :: its)).length + 60 ≤ fuel) :
+    ∃ pair, Peg.run gList fuel R.StringValue inp off at_ = some (off + ((litText (it :: its)).length + 2), [pair]) ∧
+      stringValueChars (Ctx.spec inp) pair =
+        ((it :: its).mapM SItem.decode).map (fun s => (s, { line := (lineCol inp off).1, col := (lineCol inp off).2 })) ∧
+      firstBadEscape (Ctx.spec inp) [pair] = firstBadItem (it :: its) (off + 1) := by
+  refine ⟨litPair (it :: its) off, ?_, stringValueChars_litPair it its hok off rest h,
+    firstBadEscape_litPair (it :: its) off rest h⟩
+  obtain ⟨tr', h'⟩ := litValue_runs it its hok off rest (at_ := at_) {}
+  have := h' fuel hf
+  unfold Peg.run
+  rw [h, this]
+
+open NitroVerif.StringParse in
+/-- … and the value is the one the GraphQL specification assigns to the literal: if every item decodes (no `\u` escape
+    denotes a surrogate or a value above U+10FFFF) and the unescaped characters are SourceCharacters, then the builder's
+    characters `s` are `GqlString.decodeStringLiteral literal` (spec §2.9.4, the reference written independently for C16),
+    and `validate_unicode_escapes` accepts the literal: `decode (parse literal) = specDecode literal`. -/
+theorem string_decode_general_spec (it : SItem) (its : List SItem) (hok : AllOk (it :: its))
+    (hsrc : ∀ c, SItem.plain c ∈ it :: its → GqlString.sourceChar c = true) (s : List Char)
+    (hs : (it :: its).mapM SItem.decode = .ok s) (inp : List Char) (off : Nat) (rest : List Char)
+    (h : inp.drop off = '"' :: (litText (it :: its) ++ '"' :: rest)) (at_ : Atomicity) (fuel : Nat)
+    (hf : (litText (it :: its)).length + 60 ≤ fuel) :
+    ∃ pair, Peg.run gList fuel R.StringValue inp off at_ = some (off + ((litText (it :: its)).length + 2), [pair]) ∧
+      stringValueChars (Ctx.spec inp) pair = .ok (s, { line := (lineCol inp off).1, col := (lineCol inp off).2 }) ∧
+      firstBadEscape (Ctx.spec inp) [pair] = none ∧
+      GqlString.decodeStringLiteral ('"' :: (litText (it :: its) ++ ['"'])) = some s := by
+  obtain ⟨pair, h1, h2, h3⟩ := string_decode_general it its hok inp off rest h at_ fuel hf
+  refine ⟨pair, h1, ?_, ?_, decodeStringLiteral_lit (it :: its) hok hsrc s hs⟩
+  · rw [h2, hs]; rfl
+  · rw [h3]; exact firstBadItem_none (mapM_decode_ok hok hs) _
+
+open NitroVerif.StringParse in
+/-- the hypotheses are satisfiable: `"a\u0041\u{1F600}\/"` is such a literal, all four alternatives, value `aA😀/` -/
+example : AllOk [.plain 'a', .u4 '0' '0' '4' '1', .ubrace ['1', 'F', '6', '0', '0'], .esc '/'] ∧
+    litText [.plain 'a', .u4 '0' '0' '4' '1', .ubrace ['1', 'F', '6', '0', '0'], .esc '/'] =
+      "a\\u0041\\u{1F600}\\/".toList ∧
+    ([SItem.plain 'a', .u4 '0' '0' '4' '1', .ubrace ['1', 'F', '6', '0', '0'], .esc '/'].mapM SItem.decode).toOption =
+      some ['a', 'A', Char.ofNat 0x1F600, '/'] := by
+  refine ⟨?_, by decide, by decide⟩
+  intro it hit
+  simp only [List.mem_cons, List.not_mem_nil, or_false] at hit
+  rcases hit with rfl | rfl | rfl | rfl <;> simp [SItem.Ok, escLetters] <;> decide
+
+/-- `string_decode_general_spec` does NOT extend to surrogate pairs: the specification reads `\uD83D\uDE00` (a leading and a
+    trailing surrogate, both written as `\uXXXX`) as the one character U+1F600, the parser — since the repair of the panic
+    (668f535: `validate_unicode_escapes`) — rejects the document with a syntax error at the first escape (line 0, column 14;
+    `string_decode_general` says so in general: `firstBadItem` is the offset of the first `\u` escape that denotes no scalar
+    value). Kernel-checked on the model. -/
+theorem string_decode_surrogate_pair_counterexample :
+    GqlString.decodeStringLiteral "\"\\uD83D\\uDE00\"".toList = some [Char.ofNat 0x1F600] ∧
+    (match parseOp "query { a(s: \"\\uD83D\\uDE00\") }".toList with
+      | .err 0 14 => true
+      | _ => false) = true := by
+  decide +kernel
+
+open NitroVerif.StringParse in
+/-- `parse_render_block_string_raw` — what the model (like the code: open finding t) returns for a block string: for EVERY
+    `body` that contains no `"""` other than as the tail of a `\"""` (`noBareTriple`, scanned left to right as the grammar's
+    `BlockStringCharacter*` does) and whose last character is neither `"` nor `\` (`endsPlain`: either would be read together
+    with the closing delimiter), wherever `"""` ++ body ++ `"""` occurs in an input (as a value or as a description), the
+    GENERATED grammar's `StringValue` rule — `EmptyStringValue` and `NormalStringValue` are tried first and fail — consumes
+    exactly that text and yields one pair, on which `build_string_value` returns EXACTLY `body`: the raw text between the
+    delimiters, with the line/column of the opening delimiter; `validate_unicode_escapes` never objects (nothing inside a
+    block string is an escape pair). So the value is the specification's `BlockStringValue` iff `body` is a fixed point of it
+    (`block_string_value_spec_iff`). -/
+theorem parse_render_block_string_raw (body : List Char) (h3 : noBareTriple body = true) (hend : endsPlain body = true)
+    (inp : List Char) (off : Nat) (rest : List Char)
+    (h : inp.drop off = ['"', '"', '"'] ++ (body ++ (['"', '"', '"'] ++ rest))) (at_ : Atomicity) (fuel : Nat)
+    (hf : body.length + 30 ≤ fuel) :
+    ∃ pair, Peg.run gList fuel R.StringValue inp off at_ = some (off + (body.length + 6), [pair]) ∧
+      stringValueChars (Ctx.spec inp) pair = .ok (body, { line := (lineCol inp off).1, col := (lineCol inp off).2 }) ∧
+      firstBadEscape (Ctx.spec inp) [pair] = none := by
+  refine ⟨blockPair body.length off, ?_, stringValueChars_blockPair body off rest h, by
+    simp [firstBadEscape, blockPair, flatList, flat, badEscape, Pair.rule, R.StringValue, R.BlockStringValue,
+      R.EscapedUnicode4, R.EscapedUnicodeBrace]⟩
+  obtain ⟨tr', h'⟩ := blockString_runs (blockBody_of body h3 hend) off rest (at_ := at_) {}
+  have := h' fuel hf
+  unfold Peg.run
+  rw [h, this]
+
+open NitroVerif.StringParse in
+/-- the value returned for a block string is the specification's `BlockStringValue(rawValue)` exactly when the body is a
+    fixed point of it (no common indentation, no blank first / last line, no `\"""`): finding t, characterised -/
+theorem block_string_value_spec_iff (body : List Char) (h3 : noBareTriple body = true) (hend : endsPlain body = true)
+    (inp : List Char) (off : Nat) (rest : List Char)
+    (h : inp.drop off = ['"', '"', '"'] ++ (body ++ (['"', '"', '"'] ++ rest))) :
+    ∃ pair, Peg.run gList (body.length + 30) R.StringValue inp off .nonAtomic = some (off + (body.length + 6), [pair]) ∧
+      ((stringValueChars (Ctx.spec inp) pair).toOption.map Prod.fst = some (blockStringValue (blockRaw body)) ↔
+        blockStringValue (blockRaw body) = body) := by
+  obtain ⟨pair, h1, h2, _⟩ := parse_render_block_string_raw body h3 hend inp off rest h .nonAtomic _ (Nat.le_refl _)
+  refine ⟨pair, h1, ?_⟩
+  rw [h2]
+  simp [Except.toOption, eq_comm]
+
+open NitroVerif.StringParse in
+/-- the hypotheses are satisfiable; a body with line breaks, a backslash, a lone quote inside, an escaped delimiter -/
+example : noBareTriple "a \\n \" b\n  c \\\"\"\" d".toList = true ∧ endsPlain "a \\n \" b\n  c \\\"\"\" d".toList = true ∧
+    noBareTriple "a\"\"\"b".toList = false ∧ endsPlain "a\\".toList = false := by decide
+
 /-- Finding t (OPEN, known finding C07-block-string-raw): the model — like the code — returns a block string raw.
     For `query { a(s: """⏎  a⏎""") }` the builder yields `"\n  a\n"` where the spec's BlockStringValue is `"a"`. -/
 theorem block_string_counterexample :
@@ -314,45 +432,95 @@ PROVED since wave 3 (no longer open): `string_decode` / `string_decode_at` above
 `s`), and in `Props/C07Value.lean`: `render_parse_value` (+ `_at`, `_default`, `_canonical`) — the whole `Value`
 sub-language, nested lists/objects, all scalar kinds — `render_parse_arguments` (`( name: value … )`) and
 `render_parse_directives` (`@name(args) @name …`), all with ARBITRARY trivia (spaces, tabs, line terminators, commas, BOM
-and `# …` comments) at every gap between tokens, true positions included.
+and `# …` comments) at every gap between tokens, true positions included; `Props/C07Doc.lean`: whole documents.
+
+PROVED in the third stage (this file, `Props/C07Doc.lean`, `Props/C07Lead.lean`; lemmas `Lemmas/ParseMore*.lean`):
+  * lookahead transparency of the interpreter, for ANY grammar (`Lemmas/ParseMoreLook.lean`: `noPairs`, `fuelMono`,
+    `lookShape`; `RunsL.look`, `FailsL.look`, …): success / failure and the end cursor of an evaluation do not depend on the
+    lookahead state or the trace, a non-"out of depth" result is stable under a larger depth bound, no pairs under lookahead —
+    so every forward lemma proved outside lookahead holds under any lookahead state;
+  * `#import` statements: `render_parse_import_statement` (the statement parses to the import definition with true positions;
+    the implicit skip STOPS in front of it because `COMMENT`'s negative lookahead finds the statement) and
+    `parse_render_operation_document_full` (+ `_erase`): executable documents with operations, fragments AND import statements
+    in any order, and optionally a final comment that is not terminated by a line break (repaired grammar);
+  * comments whose text begins with `import`: `Ws` (the trivia every theorem of C07 quantifies over) now contains every
+    comment `# text ⏎` whose text is VISIBLY not the beginning of an import statement (`NotImportHead`,
+    Lemmas/ParseComment.lean): it does not begin with `import`, or `import` is followed by a name character (`#important`),
+    or after `import` and blanks comes a character that starts neither a name, nor `*`, nor a nested comment
+    (`# import: see below`, `#import "x"`, `# import 2 files`) — ALL theorems of C07Value / C07Doc / C07Lead hold for them;
+  * every escape form of normal string literals: `string_decode_general` (any list of items `plain | \x | \uXXXX | \u{X…}`:
+    the pair tree, what `build_string_value` returns, where `validate_unicode_escapes` reports an escape that denotes no
+    scalar value) and `string_decode_general_spec` (the value is `GqlString.decodeStringLiteral literal`, the spec's
+    StringValue semantics, whenever every escape denotes a scalar value);
+  * block strings: `parse_render_block_string_raw` (for every body the grammar reads to its end the parsed value is EXACTLY the
+    raw text between the delimiters — open finding t characterised by a theorem) and `block_string_value_spec_iff`;
+  * the optional leading `&` / `|`: `parse_render_type_system_document_lead` (+ `_erase`, `Props/C07Lead.lean`);
+  * the bare `interface I` / `extend interface I`: `parse_render_type_system_document_full` (+ `_erase`): the former limit of
+    the proof is gone — `ImplementsInterfaces?` is shown to fail on the WORD that follows (never `implements`: every item
+    begins with a description or one of nine keywords), also in front of `interface …` / `input …`;
+  * a final comment without line terminator: `skip_over_final_comment` (the implicit skip runs over arbitrary trivia and the
+    final `#text` to the end of the input), used by `parse_render_operation_document_full`.
+
+FOUND FALSE (kept visible, witness proved): `string_decode_general_spec` does not extend to surrogate PAIRS —
+  theorem string_decode_spec_all : ∀ literal s, GqlString.decodeStringLiteral literal = some s → decode (parse literal) = s
+  is false of the model and of the code: `"\uD83D\uDE00"` denotes U+1F600 by the specification (§2.9.4, a leading and a trailing
+  surrogate written as two `\uXXXX` escapes), the parser rejects the document with a syntax error at the first escape
+  (`string_decode_surrogate_pair_counterexample`; `string_decode_general` gives the general form: the error is at the first
+  `\u` escape that denotes no scalar value). The partial version under the explicit decidable side condition "every `\u`
+  escape denotes a scalar value" is `string_decode_general_spec`.
 
 OPEN — carried by K/O only (stated, not proved):
 
-theorem render_parse_value with comments whose text begins (after spaces) with `import`, or a comment at the very end of
-the input without a line terminator
-  -- `Ws` (Lemmas/ParseComment.lean) covers every comment `# text ⏎` (LF, CR LF or CR) whose text does not begin with the
-  -- letters `import`: for those the rule's negative lookahead `!ext_ImportStatementContent` would have to be followed
-  -- through the whole `#import … from "…"` grammar. Whitespace, commas, BOM and all other comments are proved.
-theorem string_decode for literals with `\uXXXX` / `\u{…}` escapes and for block strings
-  -- `specEscape` never writes `\u` escapes (every character has a plain or two-character form), so `string_decode`
-  -- covers every string VALUE but not every string LITERAL; block strings are returned raw (open finding t).
+theorem parse_render with string literals OTHER than the `specEscape` form INSIDE whole documents
+  -- `string_decode_general` and `parse_render_block_string_raw` are proved for a literal embedded ANYWHERE in an input (so they
+  -- apply to every string value and every description of every document), but they are not COMPOSED with the document
+  -- chain: the renderings `renderV` / `rDoc` / `rTsDoc` of `parse_render_*_document*` write every string value and every
+  -- description (and the path of an import statement) as `"` ++ specEscape s ++ `"`. A document theorem over renderings
+  -- that choose an arbitrary legal literal per string would need the chain re-proved over a rendering with a literal-form
+  -- parameter. Block strings inside documents additionally are returned raw (open finding t).
+theorem parse_render with a comment `# import …` that is not an import statement for a reason NOT visible in its line
+  -- e.g. `#import A` / `#import A from` followed by a line break: whether this is a comment depends on the following lines
+  -- (`ext_ImportStatementContent` skips line breaks: `#import A⏎from "x"` IS an import statement). `NotImportHead` covers
+  -- the reasons visible up to the first import target; comments of the forms `#import Name…` / `#import *…` / `#import #…` /
+  -- `#import` + blanks + end of line are carried by K/O.
+theorem parse_render_type_system_document with a final comment that is not terminated by a line break
+  -- proved for executable documents (`parse_render_operation_document_full`, `eof`); for type-system documents the last
+  -- token of the last item varies with the item kind and the chain states "a token follows" (`Tok`), carried by K/O
+  -- (`comment_eof_counterexample` is the kernel-checked witness `scalar S #`).
 theorem parse_render : ∀ A τ, parseModel (render A τ) = A      -- the full document language
-  -- PROVED (Props/C07Doc.lean) for both entry points, at the strength "every well-formed document, every trivia assignment":
-  --  * EXECUTABLE documents without `#import` lines: `parse_render_operation_document` (+ `_erase`): for every non-empty list
-  --    of well-formed operations / fragments, every trivia assignment and every choice of the `{ … }` shorthand,
-  --    `parseOp (rDoc τ sh doc) = .ok (wpDoc …)` — the model of `parse_operation_document` (generated grammar, the model's own
-  --    depth bounds, `validate_unicode_escapes`, builders) returns the document with the true position of every token; levels
-  --    below it: `render_parse_selection`, `render_parse_selection_set`, `render_parse_type_trivia`,
-  --    `render_parse_variable_definition`, `render_parse_executable_definition`.
-  --  * TYPE-SYSTEM documents, ALL kinds of item: `parse_render_type_system_document` (+ `_erase`): for every non-empty list of
-  --    well-formed SchemaDefinition / Scalar … InputObject TypeDefinition / DirectiveDefinition / SchemaExtension / Scalar …
-  --    InputObject TypeExtension, with descriptions, directives, implements lists, field / argument / input-value / enum-value
-  --    definitions, default values, root operation types, `repeatable`, directive locations:
-  --    `parseTs (rTsDoc τ doc) = .ok (wpTsDoc …)`; every EARLIER alternative of the grammar's ordered choices
-  --    (`TypeSystemDefinition | TypeSystemExtension`, `SchemaDefinition | TypeDefinition | DirectiveDefinition`, the six kinds,
-  --    the 2–3 alternatives of each rule, the 19 literals of the two `DirectiveLocation` rules) is shown to fail; levels below
-  --    it: `render_parse_input_value_definition`, `render_parse_field_definition`, `render_parse_enum_value_definition`,
+  -- PROVED (Props/C07Doc.lean, Props/C07Lead.lean) for both entry points, at the strength "every well-formed document, every
+  -- trivia assignment":
+  --  * EXECUTABLE documents: `parse_render_operation_document_full` (+ `_erase`): for every non-empty list of well-formed
+  --    operations / fragments / `#import` statements, every trivia assignment, every choice of the `{ … }` shorthand, every
+  --    number of spaces after the `#` of an import statement, optionally a final unterminated comment,
+  --    `parseOp (rDocF …) = .ok (wpDocF …)` — the model of `parse_operation_document` (generated grammar, the model's own
+  --    depth bounds, `validate_unicode_escapes`, builders) returns the document with the true position of every token;
+  --    (`parse_render_operation_document` is the special case without import statements / final comment); levels below it:
+  --    `render_parse_selection`, `render_parse_selection_set`, `render_parse_type_trivia`,
+  --    `render_parse_variable_definition`, `render_parse_executable_definition`, `render_parse_import_statement`.
+  --  * TYPE-SYSTEM documents, ALL kinds of item: `parse_render_type_system_document_full` (+ `_erase`; `…_document` is the
+  --    special case without bare interface forms; `_lead` with the optional leading `&` / `|` written everywhere): for
+  --    every non-empty list of well-formed SchemaDefinition / Scalar …
+  --    InputObject TypeDefinition / DirectiveDefinition / SchemaExtension / Scalar … InputObject TypeExtension, with
+  --    descriptions, directives, implements lists, field / argument / input-value / enum-value definitions, default values,
+  --    root operation types, `repeatable`, directive locations: `parseTs (rTsDoc τ doc) = .ok (wpTsDoc …)`; every EARLIER
+  --    alternative of the grammar's ordered choices (`TypeSystemDefinition | TypeSystemExtension`,
+  --    `SchemaDefinition | TypeDefinition | DirectiveDefinition`, the six kinds, the 2–3 alternatives of each rule, the 19
+  --    literals of the two `DirectiveLocation` rules) is shown to fail; levels below it:
+  --    `render_parse_input_value_definition`, `render_parse_field_definition`, `render_parse_enum_value_definition`,
   --    `render_parse_type_system_definition`.
-  -- Explicit side conditions of those theorems (all decidable; `WFDef`, `WFTsItem`, `Ws`):
-  --  - names are valid names; a fragment / spread name is not `on`; an enum value is none of `true false null`; selection
-  --    sets are non-empty; values / types are the well-formed ones of the earlier levels;
-  --  - every gap is `Ws` (so: no comment whose text begins with `import`, no unterminated comment at the very end of the input);
-  --  - string literals AND descriptions are rendered with `specEscape` as ordinary strings (no `\u` escapes, no block
-  --    strings — open finding t: returned raw);
-  --  - the rendering never writes the optional leading `&` / `|` of `implements`, union members, directive locations;
+  -- Explicit side conditions of those theorems (all decidable; `WFDefF`, `WFTsItemF`, `Ws`):
+  --  - names are valid names; a fragment / spread name is not `on`, an import target not `from`; an enum value is none of
+  --    `true false null`; selection sets are non-empty; an import statement has at least one target; values / types are the
+  --    well-formed ones of the earlier levels;
+  --  - every gap is `Ws` (whitespace, commas, BOM, comments that are visibly not import statements — see above; the final
+  --    unterminated comment of an executable document is the separate parameter `eof`);
+  --  - string literals, descriptions and import paths are rendered with `specEscape` as ordinary strings (see above);
+  --  - the leading `&` / `|` of `implements`, union members, directive locations is written either nowhere
+  --    (`parse_render_type_system_document`) or everywhere (`…_lead`), not mixed within one document;
   --  - where two tokens could run together the gap is made non-empty, and CONSERVATIVELY also: between two selections,
   --    between two items of a type-system document (even after `}`), between two entries of a `{ … }` / `( … )` body of a
-  --    type-system definition;
+  --    type-system definition, after `import` and after every import target that is a name;
   --  - emptiness conditions that mirror the GRAMMAR (the rule has no alternative otherwise): an object type definition has
   --    fields or directives (`type T` and `type T implements I` alone are rejected by grammar.pest, unlike the
   --    specification); a union type definition has members (grammar.pest demands `=`); a schema definition has root
@@ -360,17 +528,12 @@ theorem parse_render : ∀ A τ, parseModel (render A τ) = A      -- the full d
   --    interfaces, directives or fields; a union type extension members or directives; a directive definition at least one
   --    location, each one of the 19 words; enum / input-object definitions and extensions MAY have no body, scalar
   --    extensions no directives (the grammar accepts them);
-  --  - one condition that is a limit of the proof, not of the grammar: the bare `interface I` / `extend interface I` (no
-  --    interfaces, no directives, no fields) is excluded (`ImplementsInterfaces?` is shown to fail only on a token that does
-  --    not begin with `i`);
+  --  - (the bare `interface I` / `extend interface I` is no longer excluded: `parse_render_type_system_document_full`; only the
+  --    `_lead` variant still has the old condition `WFTsItem`);
   --  - `_erase` for type-system documents: every item carries only what its rendering shows (`NormalItem`: a type definition
   --    or extension only the components of its kind, an extension no description).
-  -- NOT proved: `#import` lines (`ext_ImportStatement`) in executable documents: the implicit skip in front of one stops
-  -- because `COMMENT`'s negative lookahead `!ext_ImportStatementContent` SUCCEEDS in matching the import — that needs the
-  -- whole calculus (`RunsK`, the skip lemmas) under negative lookahead, which is only available for lookahead state
-  -- `.none`; block strings and `\u` escapes in literals; the comments excluded by `Ws`. These remain established by K
-  -- (model = code, 0 disagreements on every generated text, canonical and noisy) + O (code = A, structure and positions) in
-  -- harness/src/bin/c07.rs.
+  -- These remaining cases stay established by K (model = code, 0 disagreements on every generated text, canonical and
+  -- noisy) + O (code = A, structure and positions) in harness/src/bin/c07.rs.
 -/
 
 end NitroVerif.C07
